@@ -22,10 +22,15 @@ theorem gen_no_failures : Dtn7.Gen.C08.extractionFailures = [] := by decide
 
 /-- Micro-step order (codes: 1 Lock, 2 deferred Unlock, 3 QueryId, 4 storeBundle, 5 bh.Insert,
 6 bh.Update, 7 deleteBundle, 8 bh.Delete, 9 bh.Find, 11 Store.Delete, 12 os.Remove, 13 os.OpenFile,
-14 WriteBundle, 15 os.Open, 16 ParseBundle): `Push` = query; write file; insert | write file;
-update — `Delete` = query; index delete; file removals — as in `Dtn7.Store.plan`. -/
+14 WriteBundle, 15 os.Open, 16 ParseBundle, 20 BundlePart.Load, 21 fragmentPayloadLen,
+22 replaceBundle, 23 os.Rename, 24 f.Close): `Push` = query; write file; insert | load the stored
+fragment; compare payload lengths; replaceBundle | write file; update — `Delete` = query; index
+delete; file removals — `ReplaceBundle` = query; replaceBundle — `replaceBundle` = open the
+temporary file; write; close; (remove it on error); rename — as in `Dtn7.Store.plan`. -/
 theorem gen_step_order :
-    Dtn7.Gen.C08.pushOrder = [1, 2, 3, 4, 5, 4, 6] ∧
+    Dtn7.Gen.C08.pushOrder = [1, 2, 3, 4, 5, 20, 21, 21, 22, 4, 6] ∧
+    Dtn7.Gen.C08.replaceOpOrder = [3, 22] ∧
+    Dtn7.Gen.C08.replaceFileOrder = [13, 14, 24, 24, 12, 23] ∧
     Dtn7.Gen.C08.updateOrder = [1, 2, 6] ∧
     Dtn7.Gen.C08.deleteOrder = [1, 2, 3, 8, 7] ∧
     Dtn7.Gen.C08.deleteExpiredOrder = [9, 11] ∧
@@ -40,8 +45,23 @@ no other lock operation and no `go` statement, so each of their index accesses (
 code) is made while the mutex is held: the critical sections are atomic w.r.t. each other, which is
 what `tstep true` models. -/
 theorem gen_locks :
-    Dtn7.Gen.C08.lockTable.map (·.1) = [103, 105, 106, 206, 303, 308] ∧
-    ∀ a ∈ Dtn7.Gen.C08.lockTable, a.2 = true := by decide
+    Dtn7.Gen.C08.lockTable =
+      [(103, true), (105, true), (106, true), (206, true), (303, true), (308, true), (403, false)] ∧
+    ∀ a ∈ Dtn7.Gen.C08.lockTable, a.1 / 100 ≠ 4 → a.2 = true := by decide
+
+/-- `ReplaceBundle` (function 4) takes no lock. Its only index access is the read `QueryId` (403);
+it writes no index entry (no code 5, 6, 8 in `replaceOpOrder`); what it changes is one part file,
+through `replaceBundle`: temporary file (created/truncated, written, closed), then `os.Rename` —
+the atomic step `renameTmp` of the model. So it cannot disturb the read-modify-write of `Parts`
+that the mutex protects; concurrent `ReplaceBundle`/`Push`-replacements of the *same* part share the
+temporary file name (not modelled: the property's schedules are concurrent pushes of *different*
+fragments). -/
+theorem gen_replace_unlocked :
+    (403, false) ∈ Dtn7.Gen.C08.lockTable ∧
+    (∀ c ∈ Dtn7.Gen.C08.replaceOpOrder, c ≠ 5 ∧ c ≠ 6 ∧ c ≠ 8) ∧
+    Dtn7.Gen.C08.replaceTruncatesTmp = true ∧ Dtn7.Gen.C08.replaceWritesTmpThenRenames = true ∧
+    Dtn7.Gen.C08.replaceOpMatchesOffsetTotal = true ∧ Dtn7.Gen.C08.pushReplacesIfLonger = true := by
+  decide
 
 /-- Part files are created if missing and written from offset 0 without truncation (`overwrite`). -/
 theorem gen_open_flags :
@@ -79,6 +99,31 @@ theorem gen_delete_skeleton : Dtn7.Gen.C08.deleteSkeleton =
      "    verifPoint(\"delete:file-removed\")",
      "return nil"] := by decide
 
+theorem gen_replace_skeletons :
+    Dtn7.Gen.C08.replaceOpSkeleton =
+      ["bid := b.ID()",
+       "bi, err := s.QueryId(bid)",
+       "if err != nil",
+       "  return err",
+       "for _, part := range bi.Parts",
+       "  if part.FragmentOffset == bid.FragmentOffset && part.TotalDataLength == bid.TotalDataLength",
+       "    return part.replaceBundle(b)",
+       "return fmt.Errorf(\"store has no part for bundle %v\", bid)"] ∧
+    Dtn7.Gen.C08.replaceFileSkeleton =
+      ["tmpFilename := bp.Filename + \".tmp\"",
+       "f, err := os.OpenFile(tmpFilename, os.O_WRONLY|os.O_CREATE|os.O_TRUNC, 0600)",
+       "if err != nil",
+       "  return err",
+       "if err = b.WriteBundle(f); err != nil",
+       "  _ = f.Close()",
+       "else",
+       "  err = f.Close()",
+       "if err != nil",
+       "  _ = os.Remove(tmpFilename)",
+       "  return err",
+       "verifPoint(\"replace:tmp-written\")",
+       "return os.Rename(tmpFilename, bp.Filename)"] := by decide
+
 theorem gen_push_skeleton : Dtn7.Gen.C08.pushSkeleton =
     ["s.mutex.Lock()",
      "defer s.mutex.Unlock()",
@@ -98,7 +143,9 @@ theorem gen_push_skeleton : Dtn7.Gen.C08.pushSkeleton =
      "      knownFragment = true",
      "      break",
      "  if knownFragment",
-     "    return nil",
+     "    if stored, err := compPart.Load(); err == nil && fragmentPayloadLen(stored) >= fragmentPayloadLen(b)",
+     "      return nil",
+     "    return compPart.replaceBundle(b)",
      "  else",
      "    if err := compPart.storeBundle(b); err != nil",
      "      return err",
@@ -118,6 +165,10 @@ def bA : Bundle := ⟨idA, none, 10, 5000, [0xA0, 1, 2, 3]⟩
 def f0 : Bundle := ⟨idB, some (0, 30), 10, 9000, [0xB0, 7]⟩
 def f1 : Bundle := ⟨idB, some (10, 30), 10, 9000, [0xB1, 8, 8]⟩
 def f2 : Bundle := ⟨idB, some (20, 30), 10, 9000, [0xB2, 9]⟩
+/-- a longer fragment with the offset and total of `f0` (made for a larger MTU) -/
+def f0L : Bundle := ⟨idB, some (0, 30), 20, 9000, [0xB3, 7, 7]⟩
+/-- `bA` after a block was removed (what `Core.receive` hands to `ReplaceBundle`) -/
+def bA2 : Bundle := ⟨idA, none, 10, 5000, [0xA1, 1]⟩
 
 /-- A parser for the example bundles: the first byte identifies the bundle, the rest is ignored. -/
 def exParse : Bytes → Option Bundle
@@ -125,12 +176,16 @@ def exParse : Bytes → Option Bundle
   | 0xB0 :: 7 :: _ => some f0
   | 0xB1 :: 8 :: 8 :: _ => some f1
   | 0xB2 :: 9 :: _ => some f2
+  | 0xB3 :: 7 :: 7 :: _ => some f0L
+  | 0xA1 :: 1 :: _ => some bA2
   | _ => none
 
-theorem wf_bA : WF exParse bA := fun _ => rfl
-theorem wf_f0 : WF exParse f0 := fun _ => rfl
-theorem wf_f1 : WF exParse f1 := fun _ => rfl
-theorem wf_f2 : WF exParse f2 := fun _ => rfl
+theorem wf_bA : WF exParse bA := ⟨fun _ => rfl, fun o t h => by cases h <;> decide⟩
+theorem wf_f0 : WF exParse f0 := ⟨fun _ => rfl, fun o t h => by cases h <;> decide⟩
+theorem wf_f1 : WF exParse f1 := ⟨fun _ => rfl, fun o t h => by cases h <;> decide⟩
+theorem wf_f2 : WF exParse f2 := ⟨fun _ => rfl, fun o t h => by cases h <;> decide⟩
+theorem wf_f0L : WF exParse f0L := ⟨fun _ => rfl, fun o t h => by cases h <;> decide⟩
+theorem wf_bA2 : WF exParse bA2 := ⟨fun _ => rfl, fun o t h => by cases h⟩
 
 def exHistory : List Cmd :=
   [.op (.push bA), .op (.push f0), .op (.push f2), .op (.update idA true 7000 [("k", "v")]), .reopen]
@@ -146,7 +201,7 @@ theorem exHistory_wf : ∀ c ∈ exHistory, CmdWF exParse c := by
   · trivial
 
 /-- The state after the example history (two records, three files). -/
-def exState : State := run State.empty exHistory
+def exState : State := run exParse State.empty exHistory
 
 section
 variable (parse : Bytes → Option Bundle)
@@ -156,12 +211,12 @@ variable (parse : Bytes → Option Bundle)
 /-- **Refinement.** Every command maps the visible content exactly as the reference map does, and
 keeps the invariant. -/
 theorem refines (s : State) (h : Inv' parse s) (c : Cmd) (hw : CmdWF parse c) :
-    abs parse (step s c) = specStep (abs parse s) c ∧ Inv' parse (step s c) :=
+    abs parse (step parse s c) = specStep (abs parse s) c ∧ Inv' parse (step parse s c) :=
   ⟨(step_refines parse h c hw).2, (step_refines parse h c hw).1⟩
 
 /-- Over whole histories from the empty store (no process kill: also no unreferenced file). -/
 theorem run_refines (cs : List Cmd) (hw : ∀ c ∈ cs, CmdWF parse c) :
-    abs parse (run State.empty cs) = specRun [] cs ∧ Inv parse (run State.empty cs) :=
+    abs parse (run parse State.empty cs) = specRun [] cs ∧ Inv parse (run parse State.empty cs) :=
   ⟨(Lemmas.run_refines parse (inv'_empty parse) cs hw).2, inv_run parse (inv_empty parse) cs hw⟩
 
 example : abs exParse exState = specRun [] exHistory := (run_refines exParse exHistory exHistory_wf).1
@@ -179,45 +234,55 @@ theorem reads_agree (s : State) :
   · simp [knows, queryId, get_abs]
 
 /-- **Read-back is byte-identical.** After any history from the empty store, every part of every
-record returned by a lookup reads back as a bundle that was pushed with this id, offset and total —
-with exactly the pushed bytes. (Which push it is when one id was pushed, deleted and pushed again is
-fixed by `run_refines`: the reference map keeps the bytes of the push that created the part.) -/
+record returned by a lookup reads back as a bundle that was given to the store (`Push` or
+`ReplaceBundle`) with this id, offset and total — with exactly the given bytes. (Which one it is
+when several were given is fixed by `run_refines`: the reference map keeps the bytes of the push
+that created the part until a longer fragment with the same offset and total, or a `ReplaceBundle`,
+replaces them.) -/
 theorem read_back (cs : List Cmd) (hw : ∀ c ∈ cs, CmdWF parse c) (id : Id) (it : Item) (p : Part)
-    (hq : queryId (run State.empty cs) id = some it) (hp : p ∈ it.parts) :
-    ∃ b, Cmd.op (.push b) ∈ cs ∧ b.id = id ∧ fragKey b = (p.off, p.total) ∧
-      (loadPart parse (run State.empty cs) p).map (·.bytes) = some b.bytes := by
+    (hq : queryId (run parse State.empty cs) id = some it) (hp : p ∈ it.parts) :
+    ∃ b, Given cs b ∧ b.id = id ∧ fragKey b = (p.off, p.total) ∧
+      (loadPart parse (run parse State.empty cs) p).map (·.bytes) = some b.bytes := by
   obtain ⟨habs, _⟩ := run_refines parse cs hw
-  have hmem : (id, absItem parse (run State.empty cs) it) ∈ specRun [] cs := by
+  have hmem : (id, absItem parse (run parse State.empty cs) it) ∈ specRun [] cs := by
     rw [← habs]
     exact List.mem_map.mpr ⟨(id, it), get_some_mem hq, rfl⟩
-  have := specOk_run cs _ hmem ((p.off, p.total), (loadPart parse (run State.empty cs) p).map (·.bytes))
+  have := specOk_run cs _ hmem
+    ((p.off, p.total), (loadPart parse (run parse State.empty cs) p).map (fun b => (b.payLen, b.bytes)))
     (List.mem_map.mpr ⟨p, hp, rfl⟩)
   obtain ⟨b, hb, hid, hk, hv⟩ := this
-  exact ⟨b, hb, hid, hk, hv⟩
+  refine ⟨b, hb, hid, hk, ?_⟩
+  simp only [content] at hv
+  cases hl : loadPart parse (run parse State.empty cs) p with
+  | none => rw [hl] at hv; cases hv
+  | some x =>
+    rw [hl] at hv
+    simp only [Option.map_some, Option.some.injEq, Prod.mk.injEq] at hv
+    simp [hv.2]
 
 example : ∃ it, queryId exState idB = some it ∧ it.parts.length = 2 := ⟨_, rfl, rfl⟩
 
 /-- An operation touches the record of its own id only. -/
 theorem other_records_untouched (s : State) (h : Inv' parse s) (op : Op) (hw : OpWF parse op)
     (id : Id) (hid : id ≠ target op) :
-    get id (abs parse (exec s op)) = get id (abs parse s) := by
+    get id (abs parse (exec parse s op)) = get id (abs parse s) := by
   rw [(exec_refines parse h op hw).2]; exact spec_frame _ op id hid
 
 /-- Deleted means gone; an expiry sweep removes exactly the expired records. -/
-theorem delete_gone (s : State) (h : Inv' parse s) (id : Id) : queryId (exec s (.delete id)) id = none := by
+theorem delete_gone (s : State) (h : Inv' parse s) (id : Id) : queryId (exec parse s (.delete id)) id = none := by
   have := (exec_refines parse h (.delete id) trivial).2
-  have hg : get id (abs parse (exec s (.delete id))) = none := by rw [this]; exact spec_delete_gone _ id
+  have hg : get id (abs parse (exec parse s (.delete id))) = none := by rw [this]; exact spec_delete_gone _ id
   rw [get_abs] at hg
   simpa [queryId] using hg
 
 theorem sweep_exact (s : State) (h : Inv' parse s) (now : Nat) (id : Id) :
-    get id (abs parse (sweep s now)) =
+    get id (abs parse (sweep parse s now)) =
       (get id (abs parse s)).filter (fun r => !decide (r.expires < now)) := by
   rw [(sweep_refines parse h now).2]
   exact spec_sweep_get _ (by rw [keys_abs]; exact h.1) now id
 
 /-- Closing and reopening changes nothing. -/
-theorem reopen_id (s : State) : step s .reopen = s ∧ abs parse (reopen s) = abs parse s := ⟨rfl, rfl⟩
+theorem reopen_id (s : State) : step parse s .reopen = s ∧ abs parse (reopen s) = abs parse s := ⟨rfl, rfl⟩
 
 /-! ### Fragments -/
 
@@ -227,16 +292,60 @@ fragment whose bundle has no record yet or a fragment record: the index has one 
 that part reads back as a fragment of this bundle with this offset and total. -/
 theorem fragments_collected (s : State) (h : Inv' parse s) (b : Bundle) (hwf : WF parse b)
     (hfr : b.frag.isSome = true) (hrec : ∀ it, queryId s b.id = some it → it.fragmented = true) :
-    (keys (exec s (.push b)).index).Nodup ∧
-    ∃ it, queryId (exec s (.push b)) b.id = some it ∧
+    (keys (exec parse s (.push b)).index).Nodup ∧
+    ∃ it, queryId (exec parse s (.push b)) b.id = some it ∧
       (it.parts.map (fun p => (p.off, p.total))).count (fragKey b) = 1 ∧
       ∃ p ∈ it.parts, (p.off, p.total) = fragKey b ∧
-        ∃ b', loadPart parse (exec s (.push b)) p = some b' ∧ b'.id = b.id ∧ b'.frag = b.frag :=
+        ∃ b', loadPart parse (exec parse s (.push b)) p = some b' ∧ b'.id = b.id ∧ b'.frag = b.frag :=
   ⟨(exec_refines parse h (.push b) hwf).1.1, Lemmas.fragments_collected parse h hwf hfr hrec⟩
 
-example : (queryId (exec exState (.push f1)) idB).map (·.parts.length) = some 3 := by decide
-example : (queryId (exec (exec exState (.push f1)) (.push f1)) idB).map (·.parts.length) = some 3 := by
+example : (queryId (exec exParse exState (.push f1)) idB).map (·.parts.length) = some 3 := by decide
+example : (queryId (exec exParse (exec exParse exState (.push f1)) (.push f1)) idB).map (·.parts.length) = some 3 := by
   decide
+
+/-- **The longer of two fragments with the same offset and total is kept.** A pushed fragment whose
+offset and total are already stored replaces the stored one's bytes exactly when the stored one
+does not read back with a payload at least as long; the index (and so the number of parts) is
+unchanged either way. -/
+theorem same_offset_longer_wins (s : State) (h : Inv' parse s) (b : Bundle) (hwf : WF parse b)
+    (it : Item) (hq : queryId s b.id = some it) (hk : pushKnown b it = true) :
+    (exec parse s (.push b)).index = s.index ∧
+    abs parse (exec parse s (.push b)) =
+      if keepsStored parse s b then abs parse s
+      else put b.id { absItem parse s it with
+        parts := setPart (fragKey b) (content b) (absItem parse s it).parts } (abs parse s) := by
+  have hc : pushCond b it = false := by
+    cases hc : pushCond b it with
+    | false => rfl
+    | true => rw [pushCond_known_excl b it hc] at hk; cases hk
+  refine ⟨exec_push_index_same parse s b it hq hc, ?_⟩
+  simp only [exec, plan_push_known parse s b it hq hk]
+  cases hks : keepsStored parse s b with
+  | true => rfl
+  | false =>
+    show abs parse (runSteps s (replaceSteps _ _)) = put _ _ _
+    rw [run_replaceSteps]
+    exact (replaced_ok parse h it b hwf hq (known_flag hk).1).2
+
+/-- `f0L` (20 bytes from offset 0) replaces the stored `f0` (10 bytes from offset 0); `f0` pushed
+afterwards is ignored; the record keeps two parts. -/
+example : (queryId (exec exParse exState (.push f0L)) idB).map
+      (fun it => it.parts.map (loadPart exParse (exec exParse exState (.push f0L)))) =
+    some [some f0L, some f2] := by decide
+example : exec exParse (exec exParse exState (.push f0L)) (.push f0) = exec exParse exState (.push f0L) := by
+  decide
+/-- … and with `f0L` the two stored fragments `[0,20)`, `[20,30)` cover the payload. -/
+example : (queryId (exec exParse exState (.push f0L)) idB).map
+    (isComplete exParse true (exec exParse exState (.push f0L))) = some true := by decide
+/-- `ReplaceBundle` swaps the bytes of the stored whole bundle, nothing else. -/
+example : (abs exParse (exec exParse exState (.replace bA2))) =
+    specStep (abs exParse exState) (.op (.replace bA2)) := by decide
+example : (queryId (exec exParse exState (.replace bA2)) idA).map
+      (fun it => it.parts.map (loadPart exParse (exec exParse exState (.replace bA2)))) =
+    some [some bA2] := by decide
+/-- Killed between the temporary file and the rename: the old bytes are still what reads back. -/
+example : abs exParse (crash exParse 1 exState (.push f0L)) = abs exParse exState ∧
+    (get (tmpOf (partOf f0L).name) (crash exParse 1 exState (.push f0L)).files).isSome = true := by decide
 
 /-- **Complete exactly when the fragments cover the payload** (the sweep of `prepareReassembly`
 with the end index maximised, i.e. with the repair of D3): for a stored fragment record whose parts
@@ -276,7 +385,7 @@ theorem load_d24_witness :
     (queryId exState idA).map (fun it => (isComplete exParse true exState it, loadableD24 exParse true exState it,
       loadable exParse true exState it)) = some (true, false, true) := by decide
 
-example : (queryId (exec exState (.push f1)) idB).map (isComplete exParse true (exec exState (.push f1))) =
+example : (queryId (exec exParse exState (.push f1)) idB).map (isComplete exParse true (exec exParse exState (.push f1))) =
     some true := by decide
 example : (queryId exState idB).map (isComplete exParse true exState) = some false := by decide
 
@@ -290,10 +399,10 @@ state that satisfies `Inv'`. Then
   (so every record other than the operation's target is untouched, and the target is intact in
   its old or its new form). -/
 theorem crash_safe (s : State) (h : Inv' parse s) (op : Op) (hw : OpWF parse op) (k : Nat) :
-    Inv' parse (crash k s op) ∧
-    (abs parse (crash k s op) = abs parse s ∨
-      abs parse (crash k s op) = specStep (abs parse s) (.op op)) ∧
-    (∀ id, id ≠ target op → get id (abs parse (crash k s op)) = get id (abs parse s)) := by
+    Inv' parse (crash parse k s op) ∧
+    (abs parse (crash parse k s op) = abs parse s ∨
+      abs parse (crash parse k s op) = specStep (abs parse s) (.op op)) ∧
+    (∀ id, id ≠ target op → get id (abs parse (crash parse k s op)) = get id (abs parse s)) := by
   obtain ⟨hi, hc⟩ := crash_cases parse h op hw k
   have hex := (exec_refines parse h op hw).2
   refine ⟨hi, hc.imp id (fun e => e.trans hex), ?_⟩
@@ -307,8 +416,8 @@ surviving content: acknowledged records stay intact and readable, later operatio
 work. -/
 theorem crash_then_run (s : State) (h : Inv' parse s) (op : Op) (hw : OpWF parse op) (k : Nat)
     (cs : List Cmd) (hcs : ∀ c ∈ cs, CmdWF parse c) :
-    abs parse (run (crash k s op) cs) = specRun (abs parse (crash k s op)) cs ∧
-    Inv' parse (run (crash k s op) cs) :=
+    abs parse (run parse (crash parse k s op) cs) = specRun (abs parse (crash parse k s op)) cs ∧
+    Inv' parse (run parse (crash parse k s op) cs) :=
   ⟨(Lemmas.run_refines parse (crash_safe parse s h op hw k).1 cs hcs).2,
    (Lemmas.run_refines parse (crash_safe parse s h op hw k).1 cs hcs).1⟩
 
@@ -317,10 +426,10 @@ complete deletes and `k` micro-steps of the next one the state satisfies `Inv'` 
 that is not expired is untouched. -/
 theorem crash_in_sweep (s : State) (h : Inv' parse s) (now j k : Nat) (id : Id)
     (hid : (expiredIds s now)[j]? = some id) :
-    let s1 := ((expiredIds s now).take j).foldl (fun s id => exec s (.delete id)) s
-    Inv' parse (crash k s1 (.delete id)) ∧
+    let s1 := ((expiredIds s now).take j).foldl (fun s id => exec parse s (.delete id)) s
+    Inv' parse (crash parse k s1 (.delete id)) ∧
     ∀ x, x ∉ expiredIds s now →
-      get x (abs parse (crash k s1 (.delete id))) = get x (abs parse s) := by
+      get x (abs parse (crash parse k s1 (.delete id))) = get x (abs parse s) := by
   intro s1
   obtain ⟨h1, a1⟩ := deleteMany parse h ((expiredIds s now).take j)
   obtain ⟨hc, _, hframe⟩ := crash_safe parse s1 h1 (.delete id) trivial k
@@ -341,26 +450,32 @@ example : (expiredIds exState 8000)[0]? = some idA := by decide
 
 /-- **No stuck state**: in every `Inv'` state every micro-step of every operation succeeds (no
 `ErrKeyExists`, no `ErrNotFound`, no missing file). -/
-theorem no_stuck (s : State) (h : Inv' parse s) (op : Op) : stepsOk s (plan s op) = true :=
+theorem no_stuck (s : State) (h : Inv' parse s) (op : Op) : stepsOk s (plan parse s op) = true :=
   Lemmas.no_stuck parse h op
 
-/-- What survives at each crash point of `Push` (points `push:new:file-written`,
+/-- What survives at each crash point of `Push` that adds a part (points `push:new:file-written`,
 `push:frag:file-written` = after micro-step 1): the index is unchanged, the part file exists. -/
-theorem crash_push_file_written (s : State) (b : Bundle) (hp : plan s (.push b) ≠ []) :
-    crash 1 s (.push b) = ⟨s.index, writtenFiles s b⟩ := by
+theorem crash_push_file_written (s : State) (b : Bundle)
+    (hadd : ∀ it, queryId s b.id = some it → pushCond b it = true) :
+    crash parse 1 s (.push b) = ⟨s.index, writtenFiles s b⟩ := by
   cases hg : get b.id s.index with
-  | none => exact crash1_push_new s b hg
-  | some it =>
-    cases hc : pushCond b it with
-    | true => exact crash1_push_frag s b it hg hc
-    | false => exact absurd (plan_push_ignored s b it hg hc) hp
+  | none => exact crash1_push_new parse s b hg
+  | some it => exact crash1_push_frag parse s b it hg (hadd it hg)
+
+/-- … and of a `Push` that replaces a shorter stored fragment, or of `ReplaceBundle` (point
+`replace:tmp-written` = after micro-step 1): index and part files are unchanged, the temporary file
+`<name>.tmp` exists (nothing reads it; the next replacement truncates it). -/
+theorem crash_replace_tmp_written (s : State) (op : Op) (n : Name) (d : Bytes)
+    (hp : plan parse s op = replaceSteps n d) :
+    crash parse 1 s op = ⟨s.index, put (tmpOf n) d s.files⟩ :=
+  crash_replaceSteps parse s n d op hp
 
 /-- What survives at each crash point of `Delete` (`delete:before-index` = 0 steps;
 `delete:before-remove` n / `delete:file-removed` n = 1 + removed files): the index entry is gone and
 exactly the first `k` part files are removed. -/
 theorem crash_delete_point (s : State) (id : Id) (it : Item) (hq : queryId s id = some it) (k : Nat) :
-    crash (k + 1) s (.delete id) = ⟨del id s.index, removeAll ((it.parts.take k).map (·.name)) s.files⟩ :=
-  crash_delete_some s id it hq k
+    crash parse (k + 1) s (.delete id) = ⟨del id s.index, removeAll ((it.parts.take k).map (·.name)) s.files⟩ :=
+  crash_delete_some parse s id it hq k
 
 /-- D31 witness (the order the tree had: part files first, index entry last). Kill after the first
 file removal: the record is still returned by the lookup, none of its parts can be read by any
@@ -369,7 +484,7 @@ theorem delete_files_first_witness :
     let s' := runSteps exState ((planDeleteFilesFirst exState idA).take 1)
     (queryId s' idA).isSome = true ∧
     (∀ prs : Bytes → Option Bundle, ∀ it, queryId s' idA = some it → ∀ p ∈ it.parts, loadPart prs s' p = none) ∧
-    plan s' (.push bA) = [] := by
+    plan exParse s' (.push bA) = [] := by
   refine ⟨by decide, ?_, by decide⟩
   intro prs it hq p hp
   have : it = ⟨true, 7000, false, [partOf bA], [("k", "v")]⟩ := by
@@ -384,8 +499,8 @@ theorem delete_files_first_witness :
   simp [loadPart, this]
 
 /-- With the repaired order the same kill leaves no trace of the record. -/
-example : queryId (crash 1 exState (.delete idA)) idA = none := by decide
-example : (plan (crash 1 exState (.delete idA)) (.push bA)).length = 2 := by decide
+example : queryId (crash exParse 1 exState (.delete idA)) idA = none := by decide
+example : (plan exParse (crash exParse 1 exState (.delete idA)) (.push bA)).length = 2 := by decide
 
 /-! ### Concurrent pushes -/
 
@@ -397,17 +512,17 @@ theorem concurrent_fragments (s : State) (h : Inv' parse s) (b1 b2 : Bundle)
     (hf1 : b1.frag.isSome = true) (hf2 : b2.frag.isSome = true)
     (hfresh : ∀ r, get b1.id (abs parse s) = some r → r.fragmented = true ∧
       ∀ p ∈ r.parts, p.1 ≠ fragKey b1 ∧ p.1 ≠ fragKey b2)
-    (sched : List Bool) (hfin : (runSched true b1 b2 s sched).finished = true) :
-    ∃ r, get b1.id (abs parse (runSched true b1 b2 s sched).st) = some r ∧
-      (fragKey b1, some b1.bytes) ∈ r.parts ∧ (fragKey b2, some b2.bytes) ∈ r.parts :=
+    (sched : List Bool) (hfin : (runSched parse true b1 b2 s sched).finished = true) :
+    ∃ r, get b1.id (abs parse (runSched parse true b1 b2 s sched).st) = some r ∧
+      (fragKey b1, content b1) ∈ r.parts ∧ (fragKey b2, content b2) ∈ r.parts :=
   Lemmas.concurrent_fragments parse h b1 b2 hw1 hw2 hid hk hf1 hf2 hfresh sched hfin
 
 /-- Every finished schedule under the mutex ends in the state of one of the two sequential orders. -/
 theorem concurrent_serialisable (s : State) (b1 b2 : Bundle) (sched : List Bool)
-    (hfin : (runSched true b1 b2 s sched).finished = true) :
-    (runSched true b1 b2 s sched).st = exec (exec s (.push b1)) (.push b2) ∨
-    (runSched true b1 b2 s sched).st = exec (exec s (.push b2)) (.push b1) :=
-  locked_serial b1 b2 s sched hfin
+    (hfin : (runSched parse true b1 b2 s sched).finished = true) :
+    (runSched parse true b1 b2 s sched).st = exec parse (exec parse s (.push b1)) (.push b2) ∨
+    (runSched parse true b1 b2 s sched).st = exec parse (exec parse s (.push b2)) (.push b1) :=
+  locked_serial parse b1 b2 s sched hfin
 
 end
 
@@ -418,21 +533,21 @@ def lostUpdateSchedule : List Bool := [false, false, true, true, true, true, fal
 /-- D23 witness (`Push` as it was, without the mutex): with the record holding fragment `f0`, both
 pushes return, but the record has lost `f2` — its file is on disk, unreferenced. -/
 theorem concurrent_unlocked_witness :
-    let c := runSched false f1 f2 (exec State.empty (.push f0)) lostUpdateSchedule
+    let c := runSched exParse false f1 f2 (exec exParse State.empty (.push f0)) lostUpdateSchedule
     c.finished = true ∧
     (queryId c.st idB).map (fun it => it.parts.map (fun p => (p.off, p.total))) = some [(0, 30), (10, 30)] ∧
     (get (partOf f2).name c.st.files).isSome = true := by decide
 
 /-- The same schedule under the mutex: thread 2 is blocked until thread 1 is done; both recorded. -/
 example :
-    let c := runSched true f1 f2 (exec State.empty (.push f0)) (lostUpdateSchedule ++ [true, true, true, true])
+    let c := runSched exParse true f1 f2 (exec exParse State.empty (.push f0)) (lostUpdateSchedule ++ [true, true, true, true])
     c.finished = true ∧
     (queryId c.st idB).map (fun it => it.parts.map (fun p => (p.off, p.total))) =
       some [(0, 30), (10, 30), (20, 30)] := by decide
 
-example : ∃ r, get idB (abs exParse (runSched true f1 f2 (exec State.empty (.push f0))
+example : ∃ r, get idB (abs exParse (runSched exParse true f1 f2 (exec exParse State.empty (.push f0))
       (lostUpdateSchedule ++ [true, true, true, true])).st) = some r ∧
-    (fragKey f1, some f1.bytes) ∈ r.parts ∧ (fragKey f2, some f2.bytes) ∈ r.parts :=
+    (fragKey f1, content f1) ∈ r.parts ∧ (fragKey f2, content f2) ∈ r.parts :=
   concurrent_fragments exParse _
     ((exec_refines exParse (inv'_empty exParse) (.push f0) wf_f0).1) f1 f2 wf_f1 wf_f2 rfl (by decide)
     rfl rfl (by decide) _ (by decide)
